@@ -177,15 +177,22 @@ static HG_CONVERT_REPLACE_REGEX: LazyLock<Regex> = LazyLock::new(|| {
 fn convert_hgignore_glob(glob: &str, file_path: &Path) -> Result<Regex, Error> {
     #[cfg(not(windows))]
     {
-        // `**` is any run of characters, `*` a run within one path component, `?` one character
-        // of a component; every other character stands for itself
+        // `**/` is any number of whole directories (none included), `**` any run of characters,
+        // `*` a run within one path component, `?` one character of a component; every other
+        // character stands for itself. A trailing slash only says that the pattern names a directory
+        let glob = glob.trim_end_matches('/');
         let mut pattern = String::new();
         let mut chars = glob.chars().peekable();
         while let Some(c) = chars.next() {
             match c {
                 '*' if chars.peek() == Some(&'*') => {
                     chars.next();
-                    pattern.push_str(".*");
+                    if chars.peek() == Some(&'/') {
+                        chars.next();
+                        pattern.push_str("([^/]+/)*");
+                    } else {
+                        pattern.push_str(".*");
+                    }
                 }
                 '*' => pattern.push_str("[^/]*"),
                 '?' => pattern.push_str("[^/]"),
@@ -193,9 +200,13 @@ fn convert_hgignore_glob(glob: &str, file_path: &Path) -> Result<Regex, Error> {
             }
         }
 
-        pattern = regex::escape(&file_path.to_string_lossy())
+        // the pattern may start at any directory of the repository; it covers whole path components:
+        // what it matches, and everything below that (`*.log` is not `a.log.txt`)
+        pattern = String::from("^")
+            .add(&regex::escape(&file_path.to_string_lossy()))
             .add("/([^/]+/)*")
-            .add(&pattern);
+            .add(&pattern)
+            .add("(/|$)");
 
         Regex::new(&pattern)
     }
